@@ -91,6 +91,9 @@ func (ex *Exec) bindValue(t types.Type, rules []string, name string, depth int) 
 			return v
 		case u.Info()&types.IsBoolean != 0:
 			return ex.input(name, "bool", SBool)
+		case u.Info()&types.IsFloat != 0:
+			// a float datum: an opaque 64-bit pattern (never computed with, only converted or compared)
+			return &OpaqueV{kind: "float", data: ex.input(name, "int64", SBV64)}
 		case u.Info()&types.IsInteger != 0:
 			w, _ := intWidth(u)
 			v := ex.input(name, "int", BVSort(w))
